@@ -58,6 +58,8 @@ def py_text(fmt, args=()):
         if k in "ouxX":
             bits = 64 if m.group(1) else 32
             a &= (1 << bits) - 1
+        if k in "xX" and a == 0:
+            spec = spec.replace("#", "")          # C prints "%#x" of 0 as "0" (python: "0x0")
         if k == "u":
             spec = spec[:-1] + "d"
         if k == "i":
